@@ -63,6 +63,7 @@ def cases(tier: str) -> list[dict[str, Any]]:
     for sect in (False, True):
         cs.append(dict(key=f"e2e/sections={sect}", kind="e2e-all", sections=sect))
     cs.append(dict(key="find/3x3", kind="find", levels=3 if th else 2))
+    cs.append(dict(key="e2e/nearest-wins", kind="e2e-nearest"))
     cs.append(dict(key="twin/merge", kind="merge", settings=["width"], twin=True))
     return cs
 
@@ -394,8 +395,37 @@ def _run_find(env: Any, case: dict[str, Any]) -> Any:
     return "ok"
 
 
+def _run_e2e_nearest(env: Any, case: dict[str, Any]) -> Any:
+    """the nearest config file wins even if it sets nothing that matters: a parent's settings must not leak in"""
+    import flowmark.cli as cli
+
+    near = env.int("near_kind", 0, 3)
+    nk = 0
+    for i in range(4):
+        if near == i:
+            nk = i
+    # what sits in the cwd: 0 empty [tool.flowmark] table, 1 table with another key, 2 empty flowmark.toml, 3 .flowmark.toml with a comment only
+    name, body = [("pyproject.toml", "[tool.flowmark]\n"), ("pyproject.toml", "[tool.flowmark]\nsemantic = true\n"), ("flowmark.toml", ""), (".flowmark.toml", "# nothing\n")][nk]
+    with _tmp_cwd() as (d, err):
+        (d / "flowmark.toml").write_text("width = 40\nellipses = true\n")
+        sub = d / "proj" / "docs"
+        sub.mkdir(parents=True)
+        (d / "proj" / name).write_text(body)
+        (sub / "a.md").write_text("x\n")
+        os.chdir(sub)
+        rec: dict[str, Any] = {}
+        with _observed(rec):
+            code = cli.main(["a.md"])
+        os.chdir(d)
+        eff = _effective(rec)
+    env.prove(code == 0 and eff.get("width") == 88 and eff.get("ellipses") is False, "find-config:nearest-wins-e2e", {"nearest": name, "body": body, "effective": {k: eff.get(k) for k in ("width", "ellipses", "semantic")}})
+    return "ok"
+
+
 def run(env: Any, case: dict[str, Any]) -> Any:
     k = case["kind"]
+    if k == "e2e-nearest":
+        return _run_e2e_nearest(env, case)
     if k == "merge":
         return _run_merge(env, case)
     if k == "e2e":
